@@ -738,7 +738,7 @@ class Topo(C13Stream):
         return {'stream': 'topo', 'sites': sites, 'isl': isl}
 
     def gen(self, rng, tier):
-        n = 120 if tier == 'quick' else 1000
+        n = 120 if tier == 'quick' else 800
         out = []
         for i in range(n):
             case = self.recipe(rng, big=(tier != 'quick' or i % 6 == 0))
@@ -768,7 +768,7 @@ class Raw(C13Stream):
             'delegation ids incl. empty delegation objects; non-trivial = at least one delegation id')
 
     def gen(self, rng, tier):
-        n = 360 if tier == 'quick' else 5000
+        n = 360 if tier == 'quick' else 4000
         out = []
         for _ in range(n):
             nn = rng.randint(2, 14)
